@@ -54,7 +54,13 @@ RULE = ("per enumeration (1..200 members; names that are prefixes of each other,
         "members, members of ANOTHER enumeration of the group: all of them / one among own ones first, last, "
         "in the middle / its last one / those that coincide; the other enumeration being larger, permuted, "
         "identical or an extension), in both orders and grouped by enumeration; every step is compared with its "
-        "own enumeration")
+        "own enumeration.  Stateful sequences on ONE EnumArray: a valid input is encoded, the whole array is "
+        "(or is not) decoded / printed / compared / encoded again, and 2-6 parts or reorderings of it (slices with "
+        "every sign of start/stop/step, boolean masks, fancy indexing with repeats and negative positions, "
+        "copy/view/reshape/encode, chains of up to 3 of these; some taken BEFORE the whole array was touched) are "
+        "decoded both ways and compared with the model's decoding of those positions and with a freshly built "
+        "EnumArray of the same indices (decode twice, decode_to_str, repr, str, == member, encode again); then "
+        "the whole array once more")
 TRUSTED = ["numpy 1.26 (asarray, isin, argsort, searchsorted, fancy indexing, unicode comparison) and Python's "
            "enum machinery are modelled by EnumModel.v (lists, insertion sort, binary search), covered by the "
            "correspondence only"]
@@ -262,7 +268,117 @@ def step_case(c, st):
             "input": renumber(st["input"], order.index)}
 
 
+def apply_view(E, a, spec):
+    """One step of a view chain on the EnumArray a (numpy's own operations)."""
+    t = spec[0]
+    if t == "slice":
+        return a[slice(spec[1], spec[2], spec[3])]
+    if t == "mask":
+        return a[numpy.array(spec[1], dtype=bool)]
+    if t == "fancy":
+        return a[numpy.array(spec[1], dtype=numpy.intp)]
+    if t == "copy":
+        return a.copy()
+    if t == "view":
+        return a.view()
+    if t == "reshape":
+        return a.reshape(-1)
+    if t == "reenc":
+        return E.encode(a)
+    raise ValueError(spec)
+
+
+def positions(n, chain):
+    """The positions of the encoded array (of length n) a chain of views keeps, in order: plain Python lists."""
+    pos = list(range(n))
+    for spec in chain:
+        t = spec[0]
+        if t == "slice":
+            pos = pos[slice(spec[1], spec[2], spec[3])]
+        elif t == "mask":
+            pos = [p for p, b in zip(pos, spec[1]) if b]
+        elif t == "fancy":
+            pos = [pos[i] for i in spec[1]]
+    return pos
+
+
+def decode_obs(classes, v):
+    return [obs_indices(v),
+            guarded(lambda: obs_members(classes, v.decode())),
+            guarded(lambda: [str(s) for s in v.decode_to_str()])]
+
+
+def run_views(classes, c):
+    """encode; (touch the whole array: decode, repr, ...); take parts / reorderings of it and decode them;
+    decode the whole again.  Besides what the model answers, every part is compared with a freshly built
+    EnumArray of the same indices (decode, decode_to_str, repr, str, ==): the differences go to `checks`."""
+    E = classes[0]
+    a = E.encode(mk_input(classes, c["input"]))
+    n = len(a)
+    members = list(E)
+    checks = []
+    made = {}
+    for j in c["early"]:                      # parts taken before anything was done with the whole
+        v = a
+        for spec in c["views"][j]:
+            v = apply_view(E, v, spec)
+        made[j] = v
+    for what in c["pre"]:
+        if what == "decode":
+            a.decode()
+        elif what == "decode_to_str":
+            a.decode_to_str()
+        elif what == "repr":
+            repr(a)
+        elif what == "str":
+            str(a)
+        elif what == "eq":
+            a == members[0]
+        elif what == "reenc":
+            E.encode(a)
+    whole = decode_obs(classes, a) if c["pre"] else None
+    out = []
+    for j, chain in enumerate(c["views"]):
+        v = made.get(j)
+        if v is None:
+            v = a
+            for spec in chain:
+                v = apply_view(E, v, spec)
+        if not isinstance(v, ie.EnumArray) or v.possible_values is not E:
+            checks.append(f"view {j} {chain}: not an EnumArray of the enumeration")
+        ob = decode_obs(classes, v)
+        out.append(ob)
+        idx = ob[0]
+        fresh = ie.EnumArray(numpy.array(idx, dtype=numpy.uint8), E)
+
+        def same(f):
+            x, y = guarded(f, v), guarded(f, fresh)
+            return (x.kind == y.kind) if isinstance(x, Err) and isinstance(y, Err) else x == y
+
+        if not same(lambda z: [id(m) for m in z.decode()]):
+            checks.append(f"view {j} {chain} holding {idx[:12]}: decode() differs from decoding a fresh array of these indices")
+        if not same(lambda z: [id(m) for m in z.decode()]):
+            checks.append(f"view {j} {chain} holding {idx[:12]}: the second decode() differs from a fresh array's")
+        if not same(lambda z: [str(x) for x in z.decode_to_str()]):
+            checks.append(f"view {j} {chain} holding {idx[:12]}: decode_to_str() differs from a fresh array's")
+        if not same(repr):
+            checks.append(f"view {j} {chain} holding {idx[:12]}: repr {repr(v)[:80]} differs from a fresh array's {repr(fresh)[:80]}")
+        if not same(str):
+            checks.append(f"view {j} {chain} holding {idx[:12]}: str differs from a fresh array's")
+        for m in (members[0], members[-1]):
+            if not same(lambda z: [bool(b) for b in (z == m)]) or \
+                    guarded(lambda: [bool(b) for b in (v == m)]) != [i == m.index for i in idx]:
+                checks.append(f"view {j} {chain} holding {idx[:12]}: == {m.name} is not the comparison of its members")
+        if idx and not same(lambda z: obs_indices(E.encode(z))):
+            checks.append(f"view {j} {chain}: encoding it again differs")
+    if whole is None:
+        whole = decode_obs(classes, a)
+    return [[whole] + out + [decode_obs(classes, a)], checks]
+
+
 def run_impl(c):
+    if c["op"] == "views":
+        return run_views(classes_of(c), c)
     if c["op"] == "multi":
         group = same_name_classes(c["enums"])
         return [guarded(run_round, [group[k] for k in step_order(c, st)], step_case(c, st)["input"])
@@ -347,8 +463,18 @@ def cinput(c, x):
     raise ValueError(k)
 
 
+def obs_for_coq(c, o):
+    if c["op"] == "views" and not isinstance(o, Err):
+        return o[0]               # the comparisons with fresh arrays are the oracle's business
+    return o
+
+
 def coq_case(c):
     op = c["op"]
+    if op == "views":
+        n = input_size(c)
+        sel = clist([clist(["%d%%nat" % p for p in positions(n, chain)]) for chain in c["views"]])
+        return f"(KViews {cenum(0, c['enums'][0])} {cinput(c, c['input'])} {sel})"
     if op == "multi":
         steps = []
         for st in c["steps"]:
@@ -458,8 +584,45 @@ def check_encoded(c, o, tag):
     return None
 
 
+def oracle_views(c, o):
+    names = c["enums"][0]
+    if isinstance(o, Err):
+        return f"views-valid-rejected: a valid input raised {o.kind}"
+    obs, checks = o
+    items, _, _ = element_view(c) if c["input"]["k"] != "encoded" else ([("int", v) for v in c["input"]["values"]], 0, 0)
+    exp = [it[1] for it in items]
+    touched = "after " + "/".join(c["pre"]) + " of the whole array" if c["pre"] else "nothing done with the whole array before"
+
+    def judge(tag, ob, want):
+        idx, dec, strs = ob
+        if idx != want:
+            return f"{tag}-indices: holds {idx[:20]}, expected {want[:20]}"
+        if isinstance(dec, Err) or isinstance(strs, Err):
+            return f"{tag}-decode-raised: {dec if isinstance(dec, Err) else strs}"
+        if dec != [[0, i, names[i]] for i in want]:
+            return f"{tag}-decode: indices {want[:20]} decoded to {[d[1:] for d in dec][:20]} ({touched})"
+        if strs != [names[i] for i in want]:
+            return f"{tag}-decode-to-str: indices {want[:20]} decoded to {strs[:20]} ({touched})"
+        return None
+
+    msg = judge("whole", obs[0], exp) or judge("whole-again", obs[-1], exp)
+    if msg:
+        return msg
+    for j, chain in enumerate(c["views"]):
+        want = [exp[p] for p in positions(len(exp), chain)]
+        when = "taken before" if j in c["early"] else "taken after"
+        msg = judge("view", obs[1 + j], want)
+        if msg:
+            return msg + f" [part {chain} {when} that]"
+    if checks:
+        return "view-vs-fresh: " + checks[0] + f" ({touched})"
+    return None
+
+
 def oracle(c, o):
     op = c["op"]
+    if op == "views":
+        return oracle_views(c, o)
     if op == "multi":
         if isinstance(o, Err):
             return f"multi-raised: {o.kind}"
@@ -559,6 +722,10 @@ def nontrivial(c, o):
 def classify(c, o):
     op = c["op"]
     tag = op
+    if op == "views":
+        tag += ":" + c["input"]["k"] + (":pre=" + "+".join(sorted(set(c["pre"]))) if c["pre"] else ":untouched")
+        tag += ":" + "+".join(sorted({spec[0] for chain in c["views"] for spec in chain}))
+        return tag
     if op == "multi":
         kinds = sorted({st["input"]["k"] for st in c["steps"]})
         tag += f":{len(c['enums'])}enums:" + "+".join(kinds)
@@ -884,6 +1051,72 @@ def battery(rng, names, foreign, aliases=None):
     return cases
 
 
+def gen_view(rng, m):
+    """One numpy operation on an EnumArray of length m, and the length of what it gives."""
+    kinds = ["slice", "slice", "slice", "mask", "mask", "fancy", "fancy", "copy", "view", "reshape", "reenc"]
+    t = rng.choice(kinds)
+    if t == "slice":
+        pick = lambda: rng.choice([None, None, 0, 1, 2, m - 1, m, m + 1, -1, -2, -m, rng.randrange(-m - 1, m + 2)])
+        spec = ["slice", pick(), pick(), rng.choice([None, None, 1, 2, -1, -1, -2, 3])]
+    elif t == "mask":
+        style = rng.random()
+        bools = [style < 0.1 or (style > 0.2 and rng.random() < 0.5) for _ in range(m)]
+        spec = ["mask", bools]
+    elif t == "fancy":
+        k = rng.choice([0, 1, 2, m, m + 2, rng.randrange(0, m + 4)]) if m else 0
+        spec = ["fancy", [rng.randrange(-m, m) for _ in range(k)]]
+        if m and rng.random() < 0.3:
+            spec = ["fancy", list(range(m))[::-1]]
+    else:
+        spec = [t]
+    return spec, len(positions(m, [spec]))
+
+
+def view_cases(rng, count):
+    """One EnumArray, then parts and reorderings of it: each must decode to the members ITS indices designate,
+    whatever was done with the whole array before."""
+    cases = []
+    for g in range(count):
+        n = rng.choice([1, 2, 2, 3, 3, 4, 5, 6, 8, 12, rng.randrange(1, 60), rng.randrange(1, 201)])
+        names = gen_names(rng, n)
+        L = rng.choice([1, 2, 3, 4, 5, 6, 8, 13, rng.randrange(1, 30), rng.randrange(1, 60)])
+        picks = [rng.randrange(n) for _ in range(L)]
+        if rng.random() < 0.3 and L >= n:             # every member, declaration order (then the rest)
+            picks[:n] = range(n)
+        kind = rng.choice(["arr_int", "arr_str", "seq_str", "seq_int", "arr_obj", "seq_mem", "encoded"])
+        if kind == "arr_int":
+            x = {"k": "arr_int", "dtype": rng.choice(["int16", "int32", "int64", "uint8", "uint16", "uint32", "uint64"]), "values": picks}
+        elif kind == "arr_str":
+            x = {"k": "arr_str", "values": [names[i] for i in picks]}
+        elif kind == "seq_str":
+            x = {"k": "seq", "container": rng.choice(["list", "tuple"]), "elems": [["s", names[i]] for i in picks]}
+        elif kind == "seq_int":
+            x = {"k": "seq", "container": rng.choice(["list", "tuple"]), "elems": [["i", i] for i in picks]}
+        elif kind == "arr_obj":
+            x = {"k": "arr_obj", "elems": [["m", 0, i] for i in picks]}
+        elif kind == "seq_mem":
+            x = {"k": "seq", "container": "list", "elems": [["m", 0, i] for i in picks]}
+        else:
+            x = {"k": "encoded", "pv": 0, "values": picks}
+        r = rng.random()
+        if r < 0.15:
+            pre = []
+        elif r < 0.55:
+            pre = [rng.choice(["decode", "repr"])]
+        else:
+            pre = rng.sample(["decode", "decode_to_str", "repr", "str", "eq", "reenc"], rng.randrange(1, 5))
+        views = []
+        for _ in range(rng.randrange(2, 7)):
+            chain, m = [], L
+            for _ in range(rng.choice([1, 1, 1, 2, 2, 3])):
+                spec, m = gen_view(rng, m)
+                chain.append(spec)
+            views.append(chain)
+        early = [j for j in range(len(views)) if rng.random() < 0.2]
+        cases.append({"op": "views", "enums": [names], "input": x, "pre": pre, "early": early, "views": views})
+    return cases
+
+
 def variant(rng, names):
     """Another enumeration a reform could declare under the same name: the same members in another
     order, one member replaced / added / removed, another size, or something else altogether."""
@@ -1034,6 +1267,7 @@ def generate(rng, tier):
                 aliases[1] = gen_aliases(rng, foreign[0])
         cases += battery(rng, names, foreign, aliases)
     cases += multi_cases(rng, {"quick": 60, "escalated": 250, "thorough": 1200}[tier])
+    cases += view_cases(rng, {"quick": 250, "escalated": 1000, "thorough": 5000}[tier])
     return cases
 
 
@@ -1064,6 +1298,8 @@ def _with_payload(c, new):
 
 
 def neighbours(c, rng):
+    if c["op"] in ("views", "multi"):
+        return []
     p = _payload(c)
     if p is None:
         return []
@@ -1082,6 +1318,23 @@ def neighbours(c, rng):
 
 
 def shrink(c, still_fails):
+    if c["op"] == "views":
+        views, early = list(c["views"]), list(c["early"])
+        changed = False
+        j = 0
+        while j < len(views) and len(views) > 1:
+            cand = dict(c)
+            cand["views"] = views[:j] + views[j + 1:]
+            cand["early"] = [e if e < j else e - 1 for e in early if e != j]
+            if still_fails(cand):
+                views, early, changed = cand["views"], cand["early"], True
+            else:
+                j += 1
+        if not changed:
+            return None
+        out = dict(c)
+        out["views"], out["early"] = views, early
+        return out
     if c["op"] == "multi":
         steps = list(c["steps"])
         changed = False
